@@ -248,7 +248,7 @@ func WaitUntil(watchdog time.Duration, cond func() bool) bool {
 		} else {
 			time.Sleep(50 * time.Microsecond)
 		}
-		if i%64 == 63 && time.Now().After(deadline) {
+		if (i < 100 && i%16 == 15 || i >= 100) && time.Now().After(deadline) {
 			return cond()
 		}
 	}
